@@ -1,6 +1,6 @@
 (* Obligation over data regenerated from the source on every run (coq/Gen/C04_Gen.v, written by
-   the translator in harness/c04.py): for a fixed grid of 32 scenarios (all flag combinations x
-   destination absent/present x two bodies, four real kills each) the trace, outcome and
+   the translator in harness/c04.py): for a fixed grid of 40 scenarios (all flag combinations x
+   destination absent/present x two bodies, four real kills each; eight injected-failure paths) the trace, outcome and
    directories recorded on the CURRENT code are exactly what the model's program computes
    (gen_trace = save cfg body: [agree]) and satisfy the Spec's predicates ([holds]). *)
 From Boltons Require Import Lib.Prelude Model.C04_Model Spec.C04_Spec Check.C04_Check Gen.C04_Gen.
@@ -8,5 +8,5 @@ From Boltons Require Import Lib.Prelude Model.C04_Model Spec.C04_Spec Check.C04_
 Lemma gen_cases_ok : forallb (fun c => agree c && holds c) gen_cases = true.
 Proof. vm_compute. reflexivity. Qed.
 
-Lemma gen_cases_count : length gen_cases = 32%nat.
+Lemma gen_cases_count : length gen_cases = 40%nat.
 Proof. reflexivity. Qed.
